@@ -48,13 +48,17 @@ SHARE = [False]
 
 
 class Builder:
-    def __init__(self, decls, fresh_leaves=False, buffers=None, share=None):
+    def __init__(self, decls, fresh_leaves=False, buffers=None, share=None, fresh_vectors=False):
         import optyx
 
         self.ox = optyx
         # fresh_leaves: every mention of a scalar variable (`a`, `x[2]`) is a *new* Variable object with the declared name, bounds and
         # domain - optyx identifies a variable by its name, so a helper returning Variable(f"x{i}") on every call is a legal model
         self.fresh_leaves = fresh_leaves
+        # fresh_vectors: every mention of a declared vector is a NEW VectorVariable of that name (a helper function declaring
+        # VectorVariable("w", n) on each call): the same problem variables by name, other element objects
+        self.fresh_vectors = fresh_vectors
+        self.vec_kw = {}
         self.leaf_kw = {}
         # buffers: a dict shared between Builders - data arrays are then written *in place* into one ndarray per (site, shape), the way a
         # rolling-window script refreshes its covariance buffer and builds a new model per period
@@ -99,6 +103,7 @@ class Builder:
             for v in o:
                 self.scalars[v.name] = v
                 self.leaf_kw[v.name] = dict(kw)
+            self.vec_kw[name] = (d["n"], dict(kw))
         elif k == "mat":
             if d.get("sym"):
                 kw["symmetric"] = True
@@ -251,8 +256,12 @@ class Builder:
 
             return norm(v, n[2])
         if k == "qf":
+            if len(n) > 3 and n[3] not in (None, "C"):
+                return ox.quadratic_form(self.V(n[1]), self.uarr(n[2], n[3]) if n[3] != "list" else [list(r) for r in n[2]])
             return ox.quadratic_form(self.V(n[1]), self.farr(n[2], "qf"))
         if k == "dotQ":
+            if len(n) > 4 and n[4] not in (None, "C"):
+                return self.V(n[1]).dot(self.uarr(n[2], n[4]) @ self.V(n[3]))
             return self.V(n[1]).dot(self.farr(n[2], "dotQ") @ self.V(n[3]))
         if k == "dotP":
             sp = n[4] if len(n) > 4 else None
@@ -276,6 +285,9 @@ class Builder:
         ox = self.ox
         k = n[0]
         if k == "vec":
+            if self.fresh_vectors and n[1] in self.vec_kw:
+                size, kw_ = self.vec_kw[n[1]]
+                return ox.VectorVariable(n[1], size, **kw_)
             return self.env[n[1]]
         if k == "vparv":
             return self.env[n[1]]
